@@ -199,6 +199,12 @@ func (e *ExprEnv) Expr(t *rapid.T, k lang.Kind, depth int) lang.Expr {
 		op := rapid.SampledFrom(allBinOps).Draw(t, "anyop")
 		lk := rapid.SampledFrom(allKinds).Draw(t, "anylk")
 		rk := rapid.SampledFrom(allKinds).Draw(t, "anyrk")
+		if Uniform(t, "sameleaf", 4) == 0 {
+			// one and the same literal (or name) on both sides: two loads of one
+			// constant, of any kind
+			l := e.Leaf(t, lk)
+			return lang.Binary{Op: op, L: l, R: l}
+		}
 		return lang.Binary{Op: op, L: e.Expr(t, lk, depth-1), R: e.Expr(t, rk, depth-1)}
 	}
 	if e.Ternary && c < 24 {
